@@ -101,6 +101,14 @@ SPECS = {
         nontrivial=lambda src, ops: any(l.startswith(("dropobs", "disallow")) for l in src) and any(o.events for o in ops),
         rule_nt="an observer was dropped or disallowed and some stabilise did work",
     ),
+    "C06": dict(
+        title="cutoffs gate propagation",
+        streams=[("cutoffs", 2000, 50000, 40)],
+        proj=dict(keep_ops=("stabilise",), keep_events=("inv", "cut", "foldcall", "bindrun", "rec"), sort_events=False),
+        oracle=O.oracle_cutoffs, profiles=("debug",), dump=True,
+        nontrivial=lambda src, ops: any(l.startswith("cutoff") for l in src) and any(o.events for o in ops),
+        rule_nt="some cutoff was assigned and some stabilise did work",
+    ),
     "C07": dict(
         title="observer values move only at stabilise boundaries",
         streams=[("reads", 1500, 40000, 40)],
